@@ -91,7 +91,7 @@ def gen(tier, rng):
         if p3 != prog:
             cases.append(Case(sess.session(run_calls(p3, inputs)), sig=key + "\n#split:\n" + "\n".join(p3), tag="split", meta=("same", pi, m3)))
         # (c) another numbering of the same labelled layout
-        start, step = rng.choice([(1, 1), (100, 100), (1000, 7), (5, 5), (30000, 3)])
+        start, step = rng.choice([(0, 1), (0, 10), (1, 1), (100, 100), (1000, 7), (5, 5), (30000, 3)])
         p4, _ = P.render(start=start, step=step)
         m4 = {int(a.split(" ")[0]): int(b.split(" ")[0]) for a, b in zip(p4, prog)}
         cases.append(Case(sess.session(run_calls(p4, inputs)), sig=key + "\n#renumbered from %d step %d" % (start, step), tag="renumber",
